@@ -412,6 +412,10 @@ def run(prog, rep):
               "RDFReader.__init__ reaches to_odml: the documents are converted once by the constructor and again by the caller's to_odml()", ri.where,
               witness="len(RDFReader(path, 'turtle').to_odml()) == 2 for a file holding one document")
 
+    from ..report import import_verdicts
+    import_verdicts(prog, rep, "C01", ("ENUM-1",), "ENUM-1",
+                    "the exporter writes the dtype as Literal(prop.dtype), i.e. through str(): a DType member has to print as its name, or the graph "
+                    "carries `DType.url` and the import drops the dtype")
     # reader side of TRUTH-3: an object fetched from the graph is never tested for truthiness (a Literal 0 / 0.0 is falsy)
     for fname in ("Document", "Section", "Property"):
         pf = Rd.lookup_method(PARSE[fname])
